@@ -41,7 +41,7 @@ fn gen(rng: &mut Rng, i: u64) -> Vec<u8> {
 }
 
 pub fn run(args: &Args, rep: &mut Report) {
-    let n = args.get_u64("n", if args.tier_thorough { 150_000 } else { 5_000 });
+    let n = args.get_u64("n", if args.tier_thorough { 400_000 } else { 5_000 });
     let only: Option<u64> = args.case.as_ref().and_then(|c| c.parse().ok());
     let mut kept: Vec<(Vec<u8>, i32, Vec<u8>, Vec<u8>)> = Vec::new();
     for i in 0..n {
